@@ -27,6 +27,9 @@
 #include <random>
 #include <chrono>
 #include <thread>
+#include <vector>
+#include <algorithm>
+#include <stdexcept>
 
 /// DataSketches namespace
 namespace datasketches {
@@ -94,6 +97,21 @@ static inline T read(std::istream& is) {
 template<typename T>
 static inline void read(std::istream& is, T* ptr, size_t size_bytes) {
   is.read(reinterpret_cast<char*>(ptr), size_bytes);
+}
+
+// reads num items into a vector when num itself came from the stream and cannot be trusted:
+// the vector at most doubles per step as the data arrives (and ends with capacity num), so a count
+// that is not backed by the stream ends in a read error instead of one huge allocation
+template<typename T, typename A>
+static inline void read(std::istream& is, std::vector<T, A>& items, size_t num) {
+  const size_t min_step = 1 << 16;
+  while (items.size() < num) {
+    const size_t step = std::min(std::max(min_step, items.size()), num - items.size());
+    items.reserve(items.size() + step);
+    items.resize(items.size() + step);
+    is.read(reinterpret_cast<char*>(items.data() + items.size() - step), step * sizeof(T));
+    if (!is.good()) throw std::runtime_error("error reading from std::istream");
+  }
 }
 
 template<typename T>
